@@ -14,18 +14,25 @@ correspondence of harness/props/c08.py, which labels every real file-layer call 
 
 * a simple statement is scanned in evaluation order.  Recognised file-layer calls become `call`; calls to helper
   functions/methods of the extracted modules that can be resolved (same class, named class, receiver whose class
-  is known from a constructor call / a generateDS member list) are expanded in place (`scope`), up to MAX_DEPTH,
-  never recursively, and in the generated bindings (nml.py) only `exportHdf5`; every other call that is not on the small PURE list, and every read through a name bound to a
-  file-layer object, is emitted CONSERVATIVELY as `opaque`: any number of file-layer calls followed by a possible
-  raise.  Calls to other entry points are opaque too (each entry point has its own skeleton).  Nothing is skipped
+  is known from a constructor call / a generateDS member list) are expanded (`scope`), up to MAX_DEPTH; each distinct
+  (function, context) body is emitted once as a shared `def` of the generated file; recursion is unrolled UNROLL deep
+  (default 1 = never recursively; `parse_group` 3); in the generated bindings (nml.py) and the optimized containers only
+  `exportHdf5` is expanded; every other call that is not on the small PURE / NOFILE lists, and every read through a
+  name bound to a file-layer object, is emitted CONSERVATIVELY as `opaque`: any number of file-layer calls followed by
+  a possible raise.  Calls to the writer entry points from another skeleton are opaque (their target there is an
+  in-memory buffer); loader entry points are expanded like any other function.  Nothing is skipped
   except statements taken not to raise (assignments to local names of constants, names, attributes of plain
   objects; imports, `pass`, docstrings); a statement
   or `if`/`for` head without any call still gets a raise point (`mayRaise`).
 * `X.f = []`-like assignments through a name derived from the document argument are `mutate f`; a later
   `X.f.append(..)` / `X.f = ..` (or a `for` whose body is only that) is `restore f`; any other assignment through a
   document-derived name is a `mutate` that is never restored.
-* entry points are analysed at their default keyword arguments (`close=True`, `embed_xml=True`, ...) and with
-  `isinstance(p, T)` decided when `p` is annotated `T`; other `if`s are `choice`.
+* entry points are analysed at the argument specialisations of ENTRIES (defaults; `close=False` with a caller-owned
+  file object; `embed_xml=False`; optimized containers; `include_includes=True`) and with `isinstance(p, T)` decided
+  when `p` is annotated `T` (or overridden by the specialisation); other `if`s are `choice`.
+* understood rewrites (second pass): `x = A if T else B` / `return A if T else B` read as if/else; `f = h5file` gives the
+  handle a second name; `with h5file:` on a handle opened before and `with closing(open(..))`;
+  `h = None; try: h = open(..); ... finally: if h [is not None]: h.close()` is read as open followed by try/finally.
 * anything the model cannot express (break/continue, several handlers, try/else, for/else, non-file context
   managers, yield, match, a file-layer call under a short-circuit/comprehension) is `unsupported`, which is never
   protected.
@@ -33,15 +40,20 @@ correspondence of harness/props/c08.py, which labels every real file-layer call 
 `extract(repo)` returns a dict (entries, sites, funcs, gaps); `emit_lean(res)` renders Gen/Skeletons.lean.
 """
 import ast
+import copy
 import os
 
-MAX_DEPTH = 3
+MAX_DEPTH = 12
+# nested activations of one function that are expanded (default 1 = never recursively); the HDF5 layout written by
+# the library nests groups three deep (neuroml / network / population_x); a deeper group is un-expanded code
+UNROLL = {("hdf5parser", "NeuroMLHdf5Parser", "parse_group"): 3}
 
 MODULES = {
     "writers": "neuroml/writers.py",
     "loaders": "neuroml/loaders.py",
     "hdf5parser": "neuroml/hdf5/NeuroMLHdf5Parser.py",
     "hdf5init": "neuroml/hdf5/__init__.py",
+    "netcontainer": "neuroml/hdf5/NetworkContainer.py",
     "nml": "neuroml/nml/nml.py",
 }
 
@@ -54,13 +66,23 @@ ENTRIES = [
     (5, "NeuroMLHdf5Loader.load[optimized]", "loaders", "NeuroMLHdf5Loader", "load", {"optimized": True}),
     (6, "ArrayMorphLoader.load", "loaders", "ArrayMorphLoader", "load", {}),
     (7, "NeuroMLLoader.load", "loaders", "NeuroMLLoader", "load", {}),
+    # second pass: non-default keyword arguments, caller-owned file objects, optimized containers, module functions
+    (8, "NeuroMLWriter.write[fileobj,close=False]", "writers", "NeuroMLWriter", "write",
+     {"close": False, "__isinstance__": {("file", "str"): False}}),
+    (9, "NeuroMLHdf5Writer.write[embed_xml=False]", "writers", "NeuroMLHdf5Writer", "write", {"embed_xml": False}),
+    (10, "NeuroMLHdf5Writer.write[containers]", "writers", "NeuroMLHdf5Writer", "write",
+     {"__members__": {("Network", "populations"): ("netcontainer", "PopulationContainer"),
+                      ("Network", "projections"): ("netcontainer", "ProjectionContainer"),
+                      ("Network", "input_lists"): ("netcontainer", "InputListContainer")}}),
+    (11, "read_neuroml2_file", "loaders", None, "read_neuroml2_file", {}),
+    (12, "read_neuroml2_file[include_includes]", "loaders", None, "read_neuroml2_file", {"include_includes": True}),
+    (13, "read_neuroml2_string", "loaders", None, "read_neuroml2_string", {}),
 ]
 # functions that count as entry points when called from another skeleton (never expanded)
+# (the writers: their target inside another skeleton is an in-memory buffer, not the file layer; the loaders are
+# expanded like any other function, recursion being cut by UNROLL)
 ENTRY_FUNCS = {("writers", "NeuroMLWriter", "write"), ("writers", "NeuroMLHdf5Writer", "write"),
-               ("writers", "ArrayMorphWriter", "write"), ("loaders", "NeuroMLHdf5Loader", "load"),
-               ("loaders", "ArrayMorphLoader", "load"), ("loaders", "NeuroMLLoader", "load"),
-               ("loaders", None, "read_neuroml2_file"), ("loaders", None, "read_neuroml2_string"),
-               ("loaders", None, "_read_neuroml2")}
+               ("writers", "ArrayMorphWriter", "write")}
 
 # the only methods of the generated bindings (nml.py) that are expanded
 NML_EXPAND = {"exportHdf5"}
@@ -69,6 +91,10 @@ PURE_BUILTINS = {"isinstance", "len", "str", "int", "float", "bool", "range", "e
                  "hasattr", "getattr", "list", "dict", "tuple", "set"}
 PURE_DOTTED = {"io.StringIO", "StringIO.StringIO", "tables.Filters", "numpy.zeros", "os.path.dirname",
                "os.path.abspath"}
+
+# library functions that can raise but never call into the file layer (checked on every run: a file-layer call
+# made from such a site has no counterpart in the skeleton and is reported)
+NOFILE_DOTTED = {"inspect.getfullargspec", "inspect.getargspec"}
 
 OPEN_FUNCS = {"tables.open_file", "open_file", "open", "tables.openFile"}
 IO_METHODS = {"create_group": "createGroup", "create_array": "createArray", "create_carray": "createArray",
@@ -135,6 +161,8 @@ class Ctx:
         self.annot = {}         # name -> annotation source
         self.detached = {}      # (root, field) currently detached -> field id
         self.exc_names = []     # names bound by enclosing `except ... as e`
+        self.isinst = {}        # (name, class) -> bool: `isinstance` tests decided by the specialisation
+        self.maybe_none = {}    # name -> handle id: `h = None` ... `h = open(..)` first thing in a try (see stmt)
         self.qual = (cls + "." if cls else "") + fn.name
 
 
@@ -150,6 +178,11 @@ class Extractor:
         self.fields = {}
         self.hids = {}
         self.member_types = None
+        self.member_over = {}    # (class, member) -> (modkey, class): specialisation of the entry being extracted
+        self.memo = {}           # inline signature -> index into self.defs
+        self.defs = []           # shared bodies of expanded functions: (name, term)
+        self.desugared = {}      # id(original statement) -> its rewritten form (one rewrite per statement)
+        self.synth = []          # synthetic AST nodes are kept alive (oracle ids are keyed by id(node))
         for k, rel in MODULES.items():
             p = os.path.join(repo, rel)
             with open(p) as fh:
@@ -167,6 +200,9 @@ class Extractor:
             self.sites[sid] = {"file": ctx.mod.rel, "func": ctx.qual, "lo": lo, "hi": hi, "what": what,
                                "calls": [], "ocode": None, "inline": [], "mutates": False}
             self.funcs.setdefault((ctx.mod.rel, ctx.qual), []).append(sid)
+        else:
+            info = self.sites[self.site_key[key]]
+            info["hi"] = max(info["hi"], hi)
         return self.site_key[key]
 
     def oid(self, node, role):
@@ -199,6 +235,8 @@ class Extractor:
                             if (isinstance(e, ast.Call) and len(e.args) >= 2
                                     and isinstance(e.args[0], ast.Constant) and isinstance(e.args[1], ast.Constant)):
                                 self.member_types[(cname, e.args[0].value)] = e.args[1].value
+        if (cls, member) in self.member_over:
+            return self.member_over[(cls, member)]
         t = self.member_types.get((cls, member))
         if t and t in self.mods["nml"].classes:
             return ("nml", t)
@@ -216,8 +254,16 @@ class Extractor:
                 return (k, name)
         return None
 
+    def base_nml_class(self, t):
+        c = self.mods[t[0]].classes.get(t[1])
+        for b in (c.bases if c is not None else []):
+            d = dotted(b)
+            if d and d.split(".")[-1] in self.mods["nml"].classes:
+                return d.split(".")[-1]
+        return None
+
     def find_class(self, name):
-        for k in ("writers", "loaders", "hdf5parser", "hdf5init", "nml"):
+        for k in ("writers", "loaders", "hdf5parser", "hdf5init", "netcontainer", "nml"):
             if name in self.mods[k].classes:
                 return (k, name)
         return None
@@ -231,6 +277,10 @@ class Extractor:
             bt = self.expr_type(ctx, e.value)
             if bt and bt[0] == "nml":
                 return self.member_type(bt[1], e.attr)
+            if bt and bt[0] == "netcontainer":
+                base = self.base_nml_class(bt)
+                if base:
+                    return self.member_type(base, e.attr)
         if isinstance(e, ast.Call):
             d = dotted(e.func)
             if d:
@@ -415,6 +465,9 @@ class Extractor:
                     if res is None and d is not None:
                         if d in PURE_BUILTINS or d in PURE_DOTTED:
                             pure = True
+                    if res is None and d in NOFILE_DOTTED:
+                        items.append(("mayRaise", self.oid(n, "nf"), site))
+                        return
                     if pure:
                         # hasattr(node, ..), len(array), list(group): reads through a file-layer object
                         if any(self.is_tracked_expr(ctx, a) for a in n.args):
@@ -424,7 +477,7 @@ class Extractor:
                     return
                 mk, cls, fn = res
                 key = (mk, cls, fn.name)
-                if key in ctx.stack or ctx.depth >= MAX_DEPTH or guarded:
+                if ctx.stack.count(key) >= UNROLL.get(key, 1) or ctx.depth >= MAX_DEPTH or guarded:
                     add_opaque(n, "export")
                     return
                 items.append(self.inline(ctx, n, mk, cls, fn, site))
@@ -462,6 +515,8 @@ class Extractor:
             return
         name = target.id
         ctx.env.pop(name, None)
+        if isinstance(value, ast.Name) and value.id in ctx.handles:
+            ctx.handles[name] = ctx.handles[value.id]       # `f = h5file`: a second name for the same handle
         if self.is_tracked_expr(ctx, value) or (isinstance(value, ast.Call) and (
                 dotted(value.func) in OPEN_FUNCS or (isinstance(value.func, ast.Attribute)
                                                     and value.func.attr in IO_METHODS))):
@@ -595,6 +650,8 @@ class Extractor:
                 and isinstance(test.args[0], ast.Name):
             ann = ctx.annot.get(test.args[0].id)
             want = dotted(test.args[1])
+            if (test.args[0].id, want) in ctx.isinst:
+                return ctx.isinst[(test.args[0].id, want)]
             if ann is not None and want is not None and ann == want:
                 return True
         return None
@@ -619,7 +676,68 @@ class Extractor:
                     return key
         return None
 
+    def desugar(self, s):
+        """`x = A if T else B` (also `return ...`, a bare expression) is read as `if T: x = A` / `else: x = B`"""
+        v = getattr(s, "value", None)
+        if isinstance(s, (ast.Assign, ast.AnnAssign, ast.Return, ast.Expr)) and isinstance(v, ast.IfExp):
+            if id(s) in self.desugared:
+                return self.desugared[id(s)]
+
+            def mk(val):
+                c = copy.copy(s)
+                c.value = val
+                return c
+            node = ast.If(test=v.test, body=[mk(v.body)], orelse=[mk(v.orelse)])
+            ast.copy_location(node, s)
+            self.synth.append(node)
+            self.desugared[id(s)] = node
+            return node
+        return s
+
+    def open_in_try(self, ctx, s):
+        """`h = None` ... `try: h = open(..); REST finally: if h [is not None]: h.close()`  (no handlers): the same
+        as `h = open(..)` followed by `try: REST finally: h.close()` -- when the open raises nothing is open and the
+        `finally` skips the close.  Returns (open statement, rewritten try) or None."""
+        if s.handlers or s.orelse or len(s.finalbody) != 1 or not s.body:
+            return None
+        if id(s) in self.desugared:
+            return self.desugared[id(s)]
+        first, fin = s.body[0], s.finalbody[0]
+        if not (isinstance(first, ast.Assign) and len(first.targets) == 1 and isinstance(first.targets[0], ast.Name)
+                and isinstance(first.value, ast.Call) and dotted(first.value.func) in OPEN_FUNCS):
+            return None
+        name = first.targets[0].id
+        if not (name in ctx.env and ctx.env[name] is None):
+            return None
+        argv = list(first.value.args) + [k.value for k in first.value.keywords]
+        if not all(self.trivial_expr(ctx, a) for a in argv):
+            return None
+        if not (isinstance(fin, ast.If) and not fin.orelse and len(fin.body) == 1):
+            return None
+        t = fin.test
+        ok = isinstance(t, ast.Name) and t.id == name
+        ok = ok or (isinstance(t, ast.Compare) and isinstance(t.left, ast.Name) and t.left.id == name
+                    and len(t.ops) == 1 and isinstance(t.ops[0], ast.IsNot)
+                    and isinstance(t.comparators[0], ast.Constant) and t.comparators[0].value is None)
+        c = fin.body[0]
+        ok = ok and isinstance(c, ast.Expr) and isinstance(c.value, ast.Call) and dotted(c.value.func) == name + ".close" \
+            and not c.value.args
+        if not ok:
+            return None
+        new = copy.copy(s)
+        rest = list(s.body[1:])
+        if not rest:
+            p = ast.Pass()
+            ast.copy_location(p, first)
+            rest = [p]
+        new.body = rest
+        new.finalbody = [c]
+        self.synth.append(new)
+        self.desugared[id(s)] = (first, new)
+        return first, new
+
     def stmt(self, ctx, s):
+        s = self.desugar(s)
         if isinstance(s, (ast.Pass, ast.Import, ast.ImportFrom, ast.FunctionDef, ast.ClassDef, ast.Global,
                           ast.Nonlocal)):
             return []
@@ -700,9 +818,23 @@ class Extractor:
             return items + [("loop", self.oid(s, "loop"), body)]
         if isinstance(s, ast.With):
             site = self.site(ctx, s, hi=s.items[-1].context_expr.end_lineno, what="With")
-            if len(s.items) == 1 and isinstance(s.items[0].context_expr, ast.Call) \
-                    and dotted(s.items[0].context_expr.func) in OPEN_FUNCS:
+            ce = s.items[0].context_expr
+            if isinstance(ce, ast.Call) and dotted(ce.func) in ("closing", "contextlib.closing") and len(ce.args) == 1 \
+                    and not ce.keywords:
+                ce = ce.args[0]
+            if len(s.items) == 1 and isinstance(ce, ast.Name) and ce.id in ctx.handles:
+                # `with h5file:` on a handle opened before: the body is guarded by the handle's close
+                h = ctx.handles[ce.id]
                 it = s.items[0]
+                if isinstance(it.optional_vars, ast.Name):
+                    ctx.handles[it.optional_vars.id] = h
+                    ctx.tracked.add(it.optional_vars.id)
+                self.note_call(site, "close")
+                body = self.seq(self.block(ctx, s.body))
+                return [("tryFinally", site, body, ("call", ("close", h), site))]
+            if len(s.items) == 1 and isinstance(ce, ast.Call) and dotted(ce.func) in OPEN_FUNCS:
+                it = copy.copy(s.items[0])
+                it.context_expr = ce
                 var = it.optional_vars.id if isinstance(it.optional_vars, ast.Name) else None
                 pre = []
                 for a in it.context_expr.args:
@@ -720,6 +852,9 @@ class Extractor:
                                ("tryFinally", site, body, ("call", ("close", h), site)))]
             return [("unsupported", site)] + self.block(ctx, s.body)
         if isinstance(s, ast.Try):
+            hoist = self.open_in_try(ctx, s)
+            if hoist is not None:
+                return self.stmt(ctx, hoist[0]) + self.stmt(ctx, hoist[1])
             site = self.site(ctx, s, hi=s.lineno, what="Try")
             bad = bool(s.orelse) or len(s.handlers) > 1
             body = self.seq(self.block(ctx, s.body))
@@ -759,7 +894,7 @@ class Extractor:
     # ---------------------------------------------------------------- functions
     def inline(self, ctx, call, mk, cls, fn, site):
         mod = self.mods[mk]
-        sub = Ctx(mod, cls, fn, ctx.depth + 1, ctx.stack | {(mk, cls, fn.name)})
+        sub = Ctx(mod, cls, fn, ctx.depth + 1, ctx.stack + ((mk, cls, fn.name),))
         params = [a.arg for a in fn.args.args]
         args = list(call.args)
         bound = {}
@@ -807,8 +942,20 @@ class Extractor:
         if callee not in [tuple(x) for x in self.sites[site]["inline"]]:
             self.sites[site]["inline"].append(list(callee))
         self.funcs.setdefault(callee, [])
-        body = self.seq(self.block(sub, fn.body))
-        return ("scope", body)
+        # the body depends only on the function and on what is known about its arguments: expanded once per
+        # distinct context and shared (a `def` of its own in the generated file)
+        sig = (mk, cls, fn.name, tuple(sorted(sub.tracked)), tuple(sorted(sub.handles.items())),
+               tuple(sorted(sub.doc)), tuple(sorted(sub.types.items())),
+               tuple(sorted((k, repr(v)) for k, v in sub.env.items())), sub.stack, sub.depth,
+               tuple(sorted(self.member_over.items())))
+        if sig not in self.memo:
+            body = self.seq(self.block(sub, fn.body))
+            bkey = (mk, cls, fn.name, repr(body))
+            if bkey not in self.memo:
+                self.memo[bkey] = len(self.defs)
+                self.defs.append(["f%d_%s" % (len(self.defs) + 1, fn.name.strip("_")), body])
+            self.memo[sig] = self.memo[bkey]
+        return ("scope", ("ref", self.memo[sig]))
 
     def entry(self, eid, name, mk, cls, fname, env):
         mod = self.mods[mk]
@@ -816,7 +963,7 @@ class Extractor:
         if fn is None:
             self.gaps.append("entry point %s not found in %s" % (name, mod.rel))
             return None
-        ctx = Ctx(mod, cls, fn, 0, frozenset({(mk, cls, fname)}))
+        ctx = Ctx(mod, cls, fn, 0, ((mk, cls, fname),))
         params = [a.arg for a in fn.args.args]
         if params and params[0] in ("self", "cls"):
             ctx.types[params[0]] = (mk, cls)
@@ -829,6 +976,9 @@ class Extractor:
         for p, dv in zip(dparams, defaults):
             if isinstance(dv, ast.Constant) and isinstance(dv.value, (bool, type(None))):
                 ctx.env[p] = dv.value
+        env = dict(env)
+        ctx.isinst = dict(env.pop("__isinstance__", {}))
+        self.member_over = dict(env.pop("__members__", {}))
         ctx.env.update(env)
         for a in fn.args.args:
             if a.annotation is not None:
@@ -843,6 +993,8 @@ class Extractor:
     def finish_all(self, entries):
         for e in entries:
             e["stmt"] = self.finish(e["stmt"])
+        for d in self.defs:
+            d[1] = self.finish(d[1])
 
     def run(self):
         entries = []
@@ -851,7 +1003,9 @@ class Extractor:
             if e is not None:
                 entries.append(e)
         self.finish_all(entries)
-        return {"entries": entries, "sites": self.sites,
+        return {"entries": entries, "sites": self.sites, "defs": self.defs,
+                "unroll": {"%s::%s" % (self.mods[k[0]].rel, (k[1] + "." if k[1] else "") + k[2]): v
+                           for k, v in UNROLL.items()},
                 "funcs": {"%s::%s" % k: v for k, v in self.funcs.items()},
                 "fields": {v: k for k, v in self.fields.items()}, "gaps": self.gaps}
 
@@ -895,15 +1049,24 @@ def lean_stmt(t, ind=2):
             "true" if t[4] else "false", pad, lean_stmt(t[5], ind + 2))
     if k == "scope":
         return "(.scope\n%s  %s)" % (pad, lean_stmt(t[1], ind + 2))
+    if k == "ref":
+        return DEFNAMES[t[1]]
     raise ValueError(k)
 
 
+DEFNAMES = []
+
+
 def emit_lean(res):
+    global DEFNAMES
+    DEFNAMES = [d[0] for d in res.get("defs", [])]
     out = ["import NmlVerif.Model.Fault",
            "/-! GENERATED by translators/skeleton_extract.py from the repository's working tree on every check run.",
            "    Do not edit.  Effect skeletons of the reader/writer entry points (property C08). -/",
            "namespace NmlVerif.Gen.Skeletons",
            "open NmlVerif.Fault", ""]
+    for name, body in res.get("defs", []):
+        out.append("def %s : Stmt :=\n  %s\n" % (name, lean_stmt(body, 2)))
     for e in res["entries"]:
         out.append("/-- %s  (%s) -/" % (e["name"], e["file"]))
         out.append("def sk%d : Stmt :=\n  %s\n" % (e["id"], lean_stmt(e["stmt"], 2)))
